@@ -66,11 +66,12 @@ type childOut struct {
 	counters map[string]int64
 	distinct map[string]map[string]struct{}
 	seen     map[string]struct{} // class notes already written
+	perKey   map[string]int      // members written per class key (capped)
 	nontriv  []string
 }
 
 func newChildOut() *childOut {
-	return &childOut{rec: vlib.ChildRec(), counters: map[string]int64{}, distinct: map[string]map[string]struct{}{}, seen: map[string]struct{}{}}
+	return &childOut{rec: vlib.ChildRec(), counters: map[string]int64{}, distinct: map[string]map[string]struct{}{}, seen: map[string]struct{}{}, perKey: map[string]int{}}
 }
 
 func (o *childOut) count(name string, n int64) { o.mu.Lock(); o.counters[name] += n; o.mu.Unlock() }
@@ -94,9 +95,22 @@ func (o *childOut) class(key, member string, canonical bool, what string, witnes
 	id := key + "\x00" + member + "\x00" + strconv.FormatBool(canonical)
 	o.mu.Lock()
 	_, dup := o.seen[id]
-	o.seen[id] = struct{}{}
+	over := false
+	if !dup {
+		// a badly broken decoder produces a new member with almost every input:
+		// keep the record bounded (members beyond the cap are only counted)
+		if len(o.seen) >= 20000 || o.perKey[key] >= 600 || (o.perKey[key] == 0 && len(o.perKey) >= 400) {
+			over = true
+		} else {
+			o.seen[id] = struct{}{}
+			o.perKey[key]++
+		}
+	}
 	o.mu.Unlock()
-	if dup {
+	if over {
+		o.count("violating_observations_beyond_record_cap", 1)
+	}
+	if dup || over {
 		return
 	}
 	o.rec.Note("class", classNote{Key: key, Member: member, Canonical: canonical, What: what, Witness: witness})
